@@ -5,10 +5,13 @@ import Deepali.Drv.GridOps
 import Deepali.Drv.Sample
 import Deepali.Drv.Flow
 import Deepali.Drv.Affine
+import Deepali.Drv.BSpline
+import Deepali.Drv.FD
+import Deepali.Drv.Losses
 namespace Deepali.Drv
 open Deepali.Proto
 
 def allHandlers : List (String × Reader String) :=
-  gridHandlers ++ sampleHandlers ++ flowHandlers ++ affineHandlers
+  gridHandlers ++ sampleHandlers ++ flowHandlers ++ affineHandlers ++ bsplineHandlers ++ fdHandlers ++ lossHandlers
 
 end Deepali.Drv
